@@ -510,7 +510,7 @@ def run(prog: Program, res: Result) -> None:  # noqa: PLR0912, PLR0915
             else:
                 res.ok("C15.R2c", site, what, "every catalog call is behind the negated condition")
         # R2d: present but non-literal context
-        if is_tag:
+        if True:  # tags and filters alike: message()/messages() report a context-free family only when no context argument is written
             free = [a for a in ast.walk(ext.node) if isinstance(a, ast.Assign) and isinstance(a.value, ast.Constant) and a.value.value in ("gettext", "ngettext")]
             for a in free:
                 atoms = []
@@ -549,6 +549,27 @@ def run(prog: Program, res: Result) -> None:  # noqa: PLR0912, PLR0915
     res.floor("C15.R2b", "context-family branches of extractors", n_b, 4)
     res.floor("C15.R2c", "silent extractor conditions on the tag", n_c, 1)
     res.floor("C15.R2d", "context-free branches of tag extractors", n_d, 2)
+    # R2e: a translation filter's message() is silent only where the filter's left value is not a literal (outside the property) or an argument is missing (the call fails)
+    res.rule("C15.R2e", "message() of a translation filter reports nothing only when the left value is not a string literal or a required argument is missing: a `return None` reached because *another* operand (the plural form, the context) is written but not a string literal is a branch on which the render still asks the catalog (ngettext / pgettext with the variable's value) and extraction reports nothing")
+    n_e = 0
+    for c, sel, ext, is_tag in pairs:
+        if is_tag:
+            continue
+        for r_ in ast.walk(ext.node):
+            if not (isinstance(r_, ast.Return) and (r_.value is None or (isinstance(r_.value, ast.Constant) and r_.value.value is None))):
+                continue
+            n_e += 1
+            atoms_e = []
+            for t_, pol_ in _path_condition(ext.module, ext.node, r_):
+                atoms_e += _atoms(t_, pol_)
+            others = sorted({o for o, f in atoms_e if f.split(":")[-1] in ("not_isinstance", "is_not_none") and o not in ("left",) and not o.startswith("len(") and not o.startswith("_filter")})
+            site = f"{ext.file}:{r_.lineno} {ext.qualname}"
+            what = f"{ext.qualname}: silent only for a non-literal left value or a missing argument"
+            if others:
+                res.fail("C15.R2e", file=ext.file, line=r_.lineno, qualname=ext.qualname, construct=f"{ext.qualname}: reports nothing when {' / '.join(others)} is not a string literal", message=f"{ext.qualname} returns None when `{' / '.join(others)}` is written but not a string literal: the render still looks the message up ({'ngettext' if 'plural' in others else 'pgettext'} with the variable's value), and extraction reports no message at all for that expression", what=what)
+            else:
+                res.ok("C15.R2e", site, what, "left value not a literal / argument missing")
+    res.floor("C15.R2e", "silent returns of filter extractors", n_e, 6)
 
     # ------------------------------------------------------------------ R3 line numbers
     res.rule("C15.R3", "both sides take the line from the originating token: tags use line_number(self.token); filters get _line_number(expr.token) from the visitor")
